@@ -77,6 +77,40 @@ func shardC10(c *Ctx, shard, nshards int) {
 		}
 		run(c10Job{n.desc, n.s2, n.s3}, false)
 	}
+	// wide combinators: many operands (per-operand scratch state only matters beyond small operand counts)
+	for i := 0; i < c.Pick(12, 120); i++ {
+		if !mine() {
+			continue
+		}
+		r := c.Rng("wide", i)
+		scale := r.LogR(0.1, 20)
+		k := r.IR(17, 60)
+		leaf := leaf2(r, scale)
+		switch i % 3 {
+		case 0:
+			ps := make(v2.VecSet, k)
+			for j := range ps {
+				ps[j] = v2.Vec{X: r.R(-8, 8) * scale, Y: r.R(-8, 8) * scale}
+			}
+			run(c10Job{fmt.Sprintf("Multi2D[%d positions](%s)", k, leaf.desc), sdf.Multi2D(leaf.s2, ps), nil}, false)
+		case 1:
+			var ops []sdf.SDF2
+			for j := 0; j < k; j++ {
+				l := leaf2(r, scale)
+				m, _ := rigid2(r, 4*scale)
+				ops = append(ops, sdf.Transform2D(l.s2, m))
+			}
+			run(c10Job{fmt.Sprintf("Union2D[%d different operands]", k), sdf.Union2D(ops...), nil}, false)
+		default:
+			var ops []sdf.SDF3
+			for j := 0; j < k; j++ {
+				l := leaf3(r, scale)
+				m, _ := rigid3(r, 4*scale)
+				ops = append(ops, sdf.Transform3D(l.s3, m))
+			}
+			run(c10Job{fmt.Sprintf("Union3D[%d different operands]", k), nil, sdf.Union3D(ops...)}, false)
+		}
+	}
 	for _, e := range catalog {
 		for i := 0; i < perEntry; i++ {
 			if !mine() {
